@@ -102,7 +102,7 @@ def cases(draw, switches):
     c = draw(full.full_programs(switches, max_lines=8, operand_depth=2, temp_bias=draw(st.sampled_from([0, 0, 4, 8]))))
     c["options"] = draw(option_set())
     c["paren_unary"] = "paren_unary" in switches
-    return c
+    return full.add_layout(draw, c, switches)
 
 
 def campaign(seed, n, switches=frozenset()):
@@ -110,6 +110,8 @@ def campaign(seed, n, switches=frozenset()):
 
     def body(case):
         meta = case.pop("_meta")
+        if meta.get("drawn_layout"):
+            stats.classes["drawn_layout"] += 1
         case = dict(case)
         check_case(case)
         nb, nh = case.get("_shape", (0, 0))
